@@ -22,7 +22,7 @@ def default_comparer(x: _T, y: _T) -> bool:
 
 
 def default_sub_comparer(x: Any, y: Any) -> Any:
-    return x - y
+    return (x > y) - (x < y)
 
 
 def default_key_serializer(x: Any) -> str:
